@@ -42,7 +42,13 @@ RULE = ("A: cells with lengths in [0.5, 50] nm and angle triples satisfying 1 - 
         "every per-frame getter is compared with the stored values of THAT frame and with the one-frame slice t[f]; "
         "non-trivial = not all angles equal. B: histories (length <= 6) over {unitcell_vectors = array | zeros | None, unitcell_lengths = array | "
         "None, unitcell_angles = array | None, t[key], slice(copy=False), join, md.join, stack, atom_slice} on 2-3 "
-        "trajectories with and without cell; non-trivial = at least one assignment and one structural op")
+        "trajectories with and without cell, with reads of unitcell_vectors / volumes / lengths / angles / periodic compute_distances as "
+        "first-class ops anywhere in between (half of the histories also compare all getters with the stored lengths/angles after "
+        "EVERY step); non-trivial = at least one assignment and one structural op. C: one object, 3-9 ops over {read of each getter, "
+        "periodic distance, assign lengths | angles | vectors | None, item assignment t.unitcell_lengths[f,i] = x / "
+        "t.unitcell_angles[f,i] = x (these getters return the stored array, so this writes the stored cell; de-facto behaviour, "
+        "not promised by the docs), scaling the array returned by unitcell_vectors (a temporary: no effect)}; after every op the "
+        "four getters must describe the lengths/angles stored at that moment")
 TRUSTED = ["harness/impl/cell_impl.py and traj_impl.py (public-API drivers)",
            "harness/props/C17.py: the ast translator of unitcell.py (decides which source expression becomes which Gallina "
            "term; np.cos(alpha) of the degree->radian converted parameter becomes the variable ca, etc.) and the float64 oracle"]
@@ -668,8 +674,10 @@ def cell_history(rng, length):
         r = rng.randrange(R)
         n = sh.regs[r]["n"]
         k = rng.choices(["vec", "veczero", "vecnone", "len", "lennone", "ang", "angnone", "slice", "slice_nc", "join",
-                         "mdjoin", "stack", "aslice", "aslice_ip"], [8, 3, 5, 7, 7, 7, 7, 10, 4, 10, 3, 6, 6, 3])[0]
-        if k == "vec":
+                         "mdjoin", "stack", "aslice", "aslice_ip", "read"], [8, 3, 5, 9, 5, 12, 5, 8, 4, 8, 3, 6, 5, 3, 22])[0]
+        if k == "read":
+            ops.append(["read_cell", r, rng.choice(["vectors", "volumes", "lengths", "angles", "distances", "vectors", "volumes"])])
+        elif k == "vec":
             ops.append(["set_vectors", r, n if rng.random() < 0.9 else n + 1, False])
         elif k == "veczero":
             ops.append(["set_vectors", r, n if rng.random() < 0.7 else n + 2, True])
@@ -722,7 +730,8 @@ def cell_history(rng, length):
 
 def exhaustive_cell_histories(length):
     import itertools
-    alphabet = [["set_vectors", 0, 3, False], ["set_vectors", 0, None], ["set_vectors", 0, 3, True], ["set_lengths", 0, 3],
+    alphabet = [["read_cell", 0, "vectors"], ["read_cell", 0, "volumes"],
+                ["set_vectors", 0, 3, False], ["set_vectors", 0, None], ["set_vectors", 0, 3, True], ["set_lengths", 0, 3],
                 ["set_lengths", 0, None], ["set_angles", 0, 3], ["set_angles", 0, None],
                 ["slice", 0, ["slice", [1, None, None]], True], ["join", 0, [1], True], ["stack", 0, 2], ["atom_slice", 0, [0, 2], False]]
     for seq in itertools.product(alphabet, repeat=length):
@@ -746,7 +755,8 @@ def run_histories(ctx, cases, stage="correspond"):
     B = 200
     impl = []
     for i in range(0, len(cases), B):
-        impl.extend(ctx.run_impl("traj_impl.py", {"cases": [{"seed": c["seed"], "specs": c["specs"], "ops": c["ops"]}
+        impl.extend(ctx.run_impl("traj_impl.py", {"cases": [{"seed": c["seed"], "specs": c["specs"], "ops": c["ops"],
+                                                              "check_cell_every_step": bool(c.get("check_cell_every_step"))}
                                                              for c in cases[i:i + B]]})["cases"])
     enc, errs = T.coq_run_all(ctx, cases)
     if errs:
@@ -756,6 +766,8 @@ def run_histories(ctx, cases, stage="correspond"):
     nbad = 0
     for c, im, w in zip(cases, impl, worlds):
         case = {"seed": c["seed"], "specs": c["specs"], "ops": c["ops"]}
+        if c.get("check_cell_every_step"):
+            case["check_cell_every_step"] = True
         ok_ops = [o[0] for o, s in zip(c["ops"], im["steps"]) if s == "ok"]
         ctx.count(case, nontrivial=any(o.startswith("set_") for o in ok_ops) and any(not o.startswith("set_") for o in ok_ops),
                   bucket="history/" + c.get("stream", "replay"))
@@ -781,6 +793,10 @@ def run_histories(ctx, cases, stage="correspond"):
             if p["kind"] in ("cell-presence-changed", "half-set-cell-produced"):
                 ctx.fail("%s: %s" % (p["op"], p["kind"]), case, observed=p, expected="complete cell exactly when the input had one",
                          tags={"kind": p["kind"], "op": p["op"], "explained_by": None}, stage=stage)
+            elif p["kind"] == "cell-getters-inconsistent":
+                ctx.fail("cell getters disagree with the stored lengths/angles: %s" % p["detail"], case, observed=p,
+                         expected="every getter computed from the lengths and angles stored at that moment",
+                         tags={"kind": p["kind"], "explained_by": None}, stage=stage)
 
 
 def build_histories(ctx):
@@ -799,10 +815,137 @@ def build_histories(ctx):
                 cases.append({"specs": CELL_SPECS, "ops": ops, "stream": "exhaustive%d" % L})
     for i, c in enumerate(cases):
         c["seed"] = (ctx.seed * 13 + i) % 100003
+        c["check_cell_every_step"] = (i % 2 == 0)      # half of the histories compare all getters after EVERY step
     return cases
 
 
+# ----------------------------------------------------------------------------- correspondence C: getters between assignments
+def getter_history(rng):
+    """one object; reads of every getter (and a periodic distance call) interleaved anywhere with single-field
+    assignments, None assignments, whole-vector assignments and item assignments into the arrays the getters return"""
+    nf = rng.choice([1, 2, 3])
+
+    def rows_l():
+        return [[f32(rng.uniform(2.0, 12.0)) for _ in range(3)] for _ in range(nf)]
+
+    def rows_a():
+        return [gen_angles(rng, rng.choice(["random", "special"])) for _ in range(nf)]
+
+    start_cell = rng.random() < 0.85
+    h = {"frames": nf, "lengths": rows_l() if start_cell else None, "angles": rows_a() if start_cell else None, "ops": []}
+    for _ in range(rng.randint(3, 9)):
+        k = rng.choices(["read", "set_angles", "set_lengths", "set_vectors", "none", "poke_l", "poke_a", "poke_v"],
+                        [34, 18, 12, 8, 6, 9, 9, 4])[0]
+        if k == "read":
+            h["ops"].append(["read", rng.choice(["vectors", "volumes", "lengths", "angles", "distances", "vectors", "volumes"])])
+        elif k == "set_angles":
+            h["ops"].append(["set_angles", rows_a()])
+        elif k == "set_lengths":
+            h["ops"].append(["set_lengths", rows_l()])
+        elif k == "set_vectors":
+            L, A = rows_l(), rows_a()
+            R = rand_rotation(rng)
+            h["ops"].append(["set_vectors", describe(L, A, R), L, A])
+        elif k == "none":
+            h["ops"].append([rng.choice(["set_angles", "set_lengths", "set_vectors"]), None])
+        elif k == "poke_l":
+            h["ops"].append(["poke_lengths", rng.randrange(nf), rng.randrange(3), f32(rng.uniform(2.0, 12.0))])
+        elif k == "poke_a":
+            h["ops"].append(["poke_angles", rng.randrange(nf), rng.randrange(3), f32(rng.uniform(80.0, 100.0))])
+        else:
+            h["ops"].append(["poke_returned_vectors"])
+    return h
+
+
+def check_getter_history(h, recs):
+    """shadow state: the lengths and angles that SHOULD be stored after each op (assignments replace an array; item
+    assignment through unitcell_lengths / unitcell_angles writes the stored array, because those getters hand out the
+    stored array itself; scaling the array returned by unitcell_vectors changes nothing, it is a temporary).
+    After every op: the four getters agree with the shadow and with each other.  -> (class, detail, step) or None"""
+    L = None if h["lengths"] is None else [list(r) for r in h["lengths"]]
+    A = None if h["angles"] is None else [list(r) for r in h["angles"]]
+    for i, (op, rec) in enumerate(zip(h["ops"], recs)):
+        k = op[0]
+        derived = False
+        if rec["status"] == "ok":
+            if k == "set_lengths":
+                L = None if op[1] is None else [list(r) for r in op[1]]
+            elif k == "set_angles":
+                A = None if op[1] is None else [list(r) for r in op[1]]
+            elif k == "set_vectors":
+                if op[1] is None:
+                    L, A = None, None
+                else:
+                    L, A, derived = [list(r) for r in op[2]], [list(r) for r in op[3]], True
+            elif k == "poke_lengths" and L is not None:
+                L[op[1]][op[2]] = op[3]
+            elif k == "poke_angles" and A is not None:
+                A[op[1]][op[2]] = op[3]
+        elif k in ("poke_lengths", "poke_angles") and rec["status"] == "TypeError" and (L if k == "poke_lengths" else A) is None:
+            pass                                                    # item assignment into None
+        elif k.startswith("set_") or k.startswith("poke"):
+            return ("an assignment raised %s" % rec["status"], str(op)[:80], i)
+        o = rec["obs"]
+        for nm, want in (("lengths", L), ("angles", A)):
+            got = o[nm]
+            if (got is None) != (want is None):
+                return ("stored %s present/absent differs from the assignments made" % nm, "step %d" % i, i)
+            if want is not None:
+                tol = (2e-5 * 50 if nm == "lengths" else 2e-3) if derived or any(x[0] == "set_vectors" and x[1] is not None for x in h["ops"][:i + 1]) else 0.0
+                if np.abs(np.array(got) - np.array(want)).max() > tol:
+                    return ("stored %s are not the values assigned" % nm, "step %d: %s vs %s" % (i, got, want), i)
+        if L is None or A is None:
+            if o["vectors"] is not None:
+                return ("unitcell_vectors is not None without a complete cell", "step %d" % i, i)
+            if L is None and o["volumes"] is not None:
+                return ("unitcell_volumes is not None without lengths", "step %d" % i, i)
+            continue
+        if isinstance(o["vectors"], dict) or o["vectors"] is None or isinstance(o["volumes"], dict) or o["volumes"] is None:
+            return ("vectors/volumes unavailable although lengths and angles are stored", "step %d: %s" % (i, str(o["vectors"])[:40]), i)
+        for f in range(len(L)):
+            if gram_of(*A[f]) <= 1e-3:
+                continue                                             # a poked angle made the triple (nearly) invalid: not judged
+            Vo = oracle_vectors(L[f], A[f])
+            V = np.array(o["vectors"][f])
+            if np.abs(V - Vo).max() > 1e-4 * max(L[f]) + 3e-6:
+                return ("unitcell_vectors do not describe the lengths/angles stored at that moment (after %s)" % k,
+                        "step %d frame %d: %s vs %s" % (i, f, V.tolist(), Vo.tolist()), i)
+            if abs(o["volumes"][f] - float(np.linalg.det(Vo))) > 2e-4 * L[f][0] * L[f][1] * L[f][2]:
+                return ("unitcell_volumes do not describe the lengths/angles stored at that moment (after %s)" % k,
+                        "step %d frame %d: %r vs %r" % (i, f, o["volumes"][f], float(np.linalg.det(Vo))), i)
+    return None
+
+
+def run_getter_histories(ctx, hs, stage="correspond"):
+    res = ctx.run_impl("cell_impl.py", {"cells": [], "getter_histories": hs})["getter_histories"]
+    for h, recs in zip(hs, res):
+        case = {"getter_history": h}
+        kinds = {o[0] for o in h["ops"]}
+        ctx.count(case, nontrivial=("read" in kinds and len(kinds) > 1), bucket="getter-history")
+        bad = check_getter_history(h, recs)
+        if bad:
+            ctx.fail(bad[0], case, observed=bad[1], expected="all getters computed from the lengths/angles stored at that moment",
+                     tags={"kind": "getter-history", "explained_by": None}, stage=stage)
+
+
+def fixed_getter_histories():
+    L = [[3.0, 4.0, 5.0], [3.0, 4.0, 5.0]]
+    A1, A2 = [[90.0, 90.0, 90.0], [80.0, 95.0, 110.0]], [[70.0, 100.0, 60.0], [90.0, 90.0, 120.0]]
+    out = []
+    for first in ("vectors", "volumes", "distances"):
+        for second in ("vectors", "volumes", "distances"):
+            out.append({"frames": 2, "lengths": L, "angles": A1, "ops": [["read", first], ["set_angles", A2], ["read", second]]})
+    out.append({"frames": 2, "lengths": L, "angles": A1, "ops": [["read", "vectors"], ["set_lengths", [[6.0, 7.0, 8.0]] * 2], ["read", "volumes"]]})
+    out.append({"frames": 2, "lengths": L, "angles": A1, "ops": [["read", "vectors"], ["poke_angles", 0, 2, 75.0], ["read", "vectors"],
+                                                                   ["poke_lengths", 1, 0, 9.0], ["read", "volumes"], ["poke_returned_vectors"], ["read", "vectors"]]})
+    out.append({"frames": 2, "lengths": L, "angles": A1, "ops": [["read", "volumes"], ["set_angles", None], ["read", "vectors"], ["set_angles", A2], ["read", "vectors"]]})
+    return out
+
+
 def correspond(ctx):
+    hs = fixed_getter_histories() + [getter_history(ctx.rng) for _ in range(150 if ctx.tier == "quick" else 3000)]
+    ctx.log("getter histories:", len(hs))
+    run_getter_histories(ctx, hs)
     cells = build_cells(ctx)
     ctx.log("cells:", len(cells))
     run_cells(ctx, cells)
@@ -894,5 +1037,7 @@ def replay(ctx, rec):
         run_cells(ctx, [dict(c["cell"], kind="replay")])
     elif "saveload" in c:
         saveload_check(ctx)
+    elif "getter_history" in c:
+        run_getter_histories(ctx, [c["getter_history"]])
     else:
         run_histories(ctx, [dict(c, stream="replay")])
